@@ -1,9 +1,9 @@
-from ..streams import meshgen
+from ..streams import meshgen, jac_geom
 from ..oracles import c14
 
-MODELS = ["MeshGen"]
-STREAMS = [meshgen.stream_rect, meshgen.stream_sections, meshgen.stream_sections_asymmetric]
-ORACLES = [c14.oracle_generate_mesh, c14.oracle_sections]
+MODELS = ["MeshGen", "MultiSec"]
+STREAMS = [meshgen.stream_rect, meshgen.stream_sections, meshgen.stream_sections_asymmetric, jac_geom.stream_multisection_jac]
+ORACLES = [c14.oracle_generate_mesh, c14.oracle_sections, c14.oracle_join_component]
 UNPROVED = ["CRM / uCRM planforms are table data interpolated by numpy: their ordering, symmetry, half/full and offset properties are checked per instance by the oracle, not proved",
             "cosine-blended spacing is proved monotone only through the rectangular model's hypothesis that the blended spanwise stations are strictly increasing (a convex combination of two increasing station lists); the station lists themselves are compared with the code by the stream",
             "unify_mesh / GeomMultiUnification reproduce the stitched surface: oracle only"]
